@@ -3,6 +3,7 @@ package checks
 import (
 	"fmt"
 	"math"
+	"net"
 	"sort"
 	"strings"
 	"time"
@@ -44,6 +45,8 @@ func c02Values() []c02Named {
 		{"struct", c02Struct{1, 2}}, {"&struct", &c02Struct{1, 2}}, {"(*struct)(nil)", nilPtr}, {"*[]int", &sl},
 		{"time.Time", time.Unix(0, 0).UTC()}, {"decimal", decimal.New(15, -1)}, {"Stringer", tS{"str"}}, {"Number", tN{2}},
 		{"[]string{}", []string{}}, {"[][]int", [][]int{{1}, {}}},
+		{"map[interface{}]interface{} with keys of 6 kinds", map[interface{}]interface{}{1: "a", "k": "b", 2.5: "c", true: "d", uint8(7): "e", int64(-1): "f", nil: "g"}},
+		{"named []string with String()", c16Tags{"t1", "t2"}}, {"net.IP", net.IP{10, 0, 0, 1}}, {"time.Duration", 90 * time.Second},
 	}
 }
 
@@ -52,6 +55,7 @@ var c02Small = []int{0, 3, 5, 18, 24, 29} // nil, 0, -1, "a", []int{1,2}, map{"k
 var c02ArgVals = []c02Named{
 	{"nil", nil}, {"0", 0}, {"1", 1}, {"-1", -1}, {"2.5", 2.5}, {`""`, ""}, {`"a"`, "a"}, {"[]Value{}", []stick.Value{}}, {"map{}", map[string]stick.Value{}}, {"true", true},
 	{`","`, ","}, {"1e9", 1e9},
+	{`"\\"`, "\\"}, {`"d/m/Y \\a\\t H\\"`, "d/m/Y \\a\\t H\\"}, {`"%s%d%"`, "%s%d%"}, {`"Y-m-d H:i:s"`, "Y-m-d H:i:s"},
 }
 
 var c02BinOps = []string{"+", "-", "*", "/", "//", "%", "**", "~", "==", "!=", "<", "<=", ">", ">=", "and", "or", "in", "not in",
